@@ -1,1 +1,513 @@
-use crate::Ctx; pub fn run(_cx: &mut Ctx) {}
+//! Domain UINT: typed option values (`option_value.rs`) and the typed
+//! getters/setters of `Packet` – C06.
+//!   UINT enc <w> <n>      -> hex | panic
+//!   UINT dec <w> <hex>    -> ok <n> | err | panic
+//!   UINT sdec <hex>       -> ok <hex> | err
+//!   UINT acc <op;op;...>  -> outputs of the get ops joined by ' / '
+//!       ops: addu w num x | adds num hex | addraw num hex | setu w num x,y,.. | sets num hex,hex,.. | clr num
+//!            getu w num | gets num | firstu w num | firsts num | raw num | obs x | getobs
+use crate::pkt::{parse_val, val_token};
+use crate::{guarded, hex, Ctx, Rng};
+use coap_lite::option_value::{OptionValueString, OptionValueU16, OptionValueU32, OptionValueU64, OptionValueU8};
+use coap_lite::{CoapOption, Packet};
+use std::collections::LinkedList;
+use std::convert::TryFrom;
+
+fn min_be(mut v: u64) -> Vec<u8> {
+    let mut out = vec![];
+    while v > 0 {
+        out.push((v & 0xff) as u8);
+        v >>= 8;
+    }
+    out.reverse();
+    out
+}
+
+fn enc_w(w: u32, n: u64) -> Option<Vec<u8>> {
+    guarded(|| match w {
+        1 => Vec::<u8>::from(OptionValueU8(n as u8)),
+        2 => Vec::<u8>::from(OptionValueU16(n as u16)),
+        4 => Vec::<u8>::from(OptionValueU32(n as u32)),
+        _ => Vec::<u8>::from(OptionValueU64(n)),
+    })
+}
+
+fn dec_w(w: u32, b: &[u8]) -> Option<Result<u64, ()>> {
+    let v = b.to_vec();
+    guarded(|| match w {
+        1 => OptionValueU8::try_from(v).map(|x| x.0 as u64).map_err(|_| ()),
+        2 => OptionValueU16::try_from(v).map(|x| x.0 as u64).map_err(|_| ()),
+        4 => OptionValueU32::try_from(v).map(|x| x.0 as u64).map_err(|_| ()),
+        _ => OptionValueU64::try_from(v).map(|x| x.0).map_err(|_| ()),
+    })
+}
+
+fn show_dec(r: &Option<Result<u64, ()>>) -> String {
+    match r {
+        None => "panic".into(),
+        Some(Ok(n)) => format!("ok {}", n),
+        Some(Err(_)) => "err".into(),
+    }
+}
+
+fn do_enc(cx: &mut Ctx, w: u32, n: u64) {
+    let line = format!("UINT enc {} {}", w, n);
+    let r = enc_w(w, n);
+    cx.case(&line, &r.as_ref().map(|b| hex(b)).unwrap_or("panic".into()));
+    let want = min_be(n);
+    match &r {
+        Some(b) if *b == want => {
+            let back = dec_w(w, b);
+            if back != Some(Ok(n)) {
+                cx.oracle_fail("C06", &line, &format!("decode(encode({})) = {}", n, show_dec(&back)));
+            }
+        }
+        Some(b) => cx.oracle_fail("C06", &line, &format!("{} encodes as {} instead of the minimal big-endian {}", n, hex(b), hex(&want))),
+        None => cx.oracle_fail("C06", &line, "encoding panics"),
+    }
+    if n >= 256 {
+        cx.nontrivial(&line);
+    }
+}
+
+fn do_dec(cx: &mut Ctx, w: u32, b: &[u8]) {
+    let line = format!("UINT dec {} {}", w, hex(b));
+    let r = dec_w(w, b);
+    cx.case(&line, &show_dec(&r));
+    let want = if b.len() > w as usize {
+        Some(Err(()))
+    } else {
+        Some(Ok(b.iter().fold(0u64, |a, &x| (a << 8) | x as u64)))
+    };
+    if r != want {
+        cx.oracle_fail("C06", &line, &format!("decoding gives {} instead of {}", show_dec(&r), show_dec(&want)));
+    }
+    if b.len() <= w as usize && !b.is_empty() {
+        cx.nontrivial(&line);
+    }
+}
+
+/// independent UTF-8 well-formedness check (RFC 3629 / Unicode table 3-7)
+pub fn utf8_ok(b: &[u8]) -> bool {
+    let mut i = 0;
+    while i < b.len() {
+        let c = b[i];
+        let (n, lo, hi) = match c {
+            0x00..=0x7F => (0, 0x80, 0xBF),
+            0xC2..=0xDF => (1, 0x80, 0xBF),
+            0xE0 => (2, 0xA0, 0xBF),
+            0xE1..=0xEC | 0xEE..=0xEF => (2, 0x80, 0xBF),
+            0xED => (2, 0x80, 0x9F),
+            0xF0 => (3, 0x90, 0xBF),
+            0xF1..=0xF3 => (3, 0x80, 0xBF),
+            0xF4 => (3, 0x80, 0x8F),
+            _ => return false,
+        };
+        if i + n >= b.len() + if n == 0 { 1 } else { 0 } && n > 0 {
+            return false;
+        }
+        for k in 1..=n {
+            if i + k >= b.len() {
+                return false;
+            }
+            let x = b[i + k];
+            let (l, h) = if k == 1 { (lo, hi) } else { (0x80, 0xBF) };
+            if x < l || x > h {
+                return false;
+            }
+        }
+        i += n + 1;
+    }
+    true
+}
+
+fn do_sdec(cx: &mut Ctx, b: &[u8]) {
+    let line = format!("UINT sdec {}", hex(b));
+    let r = OptionValueString::try_from(b.to_vec());
+    let s = match &r {
+        Ok(s) => format!("ok {}", hex(s.0.as_bytes())),
+        Err(_) => "err".into(),
+    };
+    cx.case(&line, &s);
+    let valid = utf8_ok(b);
+    match (&r, valid) {
+        (Ok(s), true) => {
+            if s.0.as_bytes() != b || Vec::<u8>::from(OptionValueString(s.0.clone())) != b {
+                cx.oracle_fail("C06", &line, "string option does not round-trip");
+            }
+            cx.nontrivial(&line);
+        }
+        (Err(_), false) => cx.stat("sdec_invalid_rejected"),
+        (Ok(_), false) => cx.oracle_fail("C06", &line, "invalid UTF-8 accepted as a text option"),
+        (Err(_), true) => cx.oracle_fail("C06", &line, "valid UTF-8 rejected as a text option"),
+    }
+}
+
+fn random_string(rng: &mut Rng) -> String {
+    let n = rng.below(12) as usize;
+    let mut s = String::new();
+    for _ in 0..n {
+        let c = match rng.below(6) {
+            0 => rng.range(0x20, 0x7e) as u32,
+            1 => rng.range(0x80, 0x7ff) as u32,
+            2 => rng.range(0x800, 0xd7ff) as u32,
+            3 => rng.range(0xe000, 0xffff) as u32,
+            4 => rng.range(0x10000, 0x10ffff) as u32,
+            _ => *rng.pick(&[0u32, 0x7f, 0x80, 0x7ff, 0x800, 0xfffd, 0xffff, 0x10000, 0x10ffff, 0x1f601]),
+        };
+        if let Some(ch) = char::from_u32(c) {
+            s.push(ch);
+        }
+    }
+    s
+}
+
+// ---- accessor sequences
+
+fn acc_case(cx: &mut Ctx, ops: &[String]) {
+    let line = format!("UINT acc {}", ops.join(";"));
+    // reference: per option number, the list of raw values
+    let mut refm: std::collections::BTreeMap<u16, Vec<Vec<u8>>> = Default::default();
+    let mut ref_out: Vec<String> = vec![];
+    let mut ref_ok = true;
+    let r = guarded(|| {
+        let mut p = Packet::new();
+        let mut outs: Vec<String> = vec![];
+        for op in ops {
+            let f: Vec<&str> = op.split(' ').collect();
+            match f[0] {
+                "addu" => {
+                    let w: u32 = f[1].parse().unwrap();
+                    let num: u16 = f[2].parse().unwrap();
+                    let x: u64 = f[3].parse().unwrap();
+                    let o = CoapOption::from(num);
+                    match w {
+                        1 => p.add_option_as(o, OptionValueU8(x as u8)),
+                        2 => p.add_option_as(o, OptionValueU16(x as u16)),
+                        4 => p.add_option_as(o, OptionValueU32(x as u32)),
+                        _ => p.add_option_as(o, OptionValueU64(x)),
+                    }
+                }
+                "adds" => {
+                    let num: u16 = f[1].parse().unwrap();
+                    let s = String::from_utf8(parse_val(f[2])).unwrap();
+                    p.add_option_as(CoapOption::from(num), OptionValueString(s));
+                }
+                "addraw" => {
+                    let num: u16 = f[1].parse().unwrap();
+                    p.add_option(CoapOption::from(num), parse_val(f[2]));
+                }
+                "setu" => {
+                    let w: u32 = f[1].parse().unwrap();
+                    let num: u16 = f[2].parse().unwrap();
+                    let xs: Vec<u64> = if f[3] == "_" { vec![] } else { f[3].split(',').map(|x| x.parse().unwrap()).collect() };
+                    let o = CoapOption::from(num);
+                    match w {
+                        1 => p.set_options_as(o, xs.iter().map(|&x| OptionValueU8(x as u8)).collect::<LinkedList<_>>()),
+                        2 => p.set_options_as(o, xs.iter().map(|&x| OptionValueU16(x as u16)).collect::<LinkedList<_>>()),
+                        4 => p.set_options_as(o, xs.iter().map(|&x| OptionValueU32(x as u32)).collect::<LinkedList<_>>()),
+                        _ => p.set_options_as(o, xs.iter().map(|&x| OptionValueU64(x)).collect::<LinkedList<_>>()),
+                    }
+                }
+                "sets" => {
+                    let num: u16 = f[1].parse().unwrap();
+                    let xs: LinkedList<OptionValueString> = if f[2] == "_" {
+                        LinkedList::new()
+                    } else {
+                        f[2].split(',').map(|x| OptionValueString(String::from_utf8(parse_val(x)).unwrap())).collect()
+                    };
+                    p.set_options_as(CoapOption::from(num), xs);
+                }
+                "clr" => p.clear_option(CoapOption::from(f[1].parse::<u16>().unwrap())),
+                "obs" => p.set_observe_value(f[1].parse().unwrap()),
+                "getobs" => outs.push(match p.get_observe_value() {
+                    None => "none".into(),
+                    Some(Ok(v)) => format!("ok {}", v),
+                    Some(Err(_)) => "err".into(),
+                }),
+                "getu" | "firstu" => {
+                    let w: u32 = f[1].parse().unwrap();
+                    let num: u16 = f[2].parse().unwrap();
+                    let o = CoapOption::from(num);
+                    let all: Option<Vec<Result<u64, ()>>> = match w {
+                        1 => p.get_options_as::<OptionValueU8>(o).map(|l| l.into_iter().map(|r| r.map(|x| x.0 as u64).map_err(|_| ())).collect()),
+                        2 => p.get_options_as::<OptionValueU16>(o).map(|l| l.into_iter().map(|r| r.map(|x| x.0 as u64).map_err(|_| ())).collect()),
+                        4 => p.get_options_as::<OptionValueU32>(o).map(|l| l.into_iter().map(|r| r.map(|x| x.0 as u64).map_err(|_| ())).collect()),
+                        _ => p.get_options_as::<OptionValueU64>(o).map(|l| l.into_iter().map(|r| r.map(|x| x.0).map_err(|_| ())).collect()),
+                    };
+                    let first: Option<Result<u64, ()>> = match w {
+                        1 => p.get_first_option_as::<OptionValueU8>(o).map(|r| r.map(|x| x.0 as u64).map_err(|_| ())),
+                        2 => p.get_first_option_as::<OptionValueU16>(o).map(|r| r.map(|x| x.0 as u64).map_err(|_| ())),
+                        4 => p.get_first_option_as::<OptionValueU32>(o).map(|r| r.map(|x| x.0 as u64).map_err(|_| ())),
+                        _ => p.get_first_option_as::<OptionValueU64>(o).map(|r| r.map(|x| x.0).map_err(|_| ())),
+                    };
+                    let sh = |r: &Result<u64, ()>| match r {
+                        Ok(v) => v.to_string(),
+                        Err(_) => "err".into(),
+                    };
+                    if f[0] == "getu" {
+                        outs.push(match all {
+                            None => "none".into(),
+                            Some(l) => format!("[{}]", l.iter().map(sh).collect::<Vec<_>>().join(",")),
+                        });
+                    } else {
+                        outs.push(match first {
+                            None => "none".into(),
+                            Some(r) => sh(&r),
+                        });
+                    }
+                }
+                "gets" | "firsts" => {
+                    let num: u16 = f[1].parse().unwrap();
+                    let o = CoapOption::from(num);
+                    let sh = |r: &Result<OptionValueString, coap_lite::error::IncompatibleOptionValueFormat>| match r {
+                        Ok(v) => hex(v.0.as_bytes()),
+                        Err(_) => "err".into(),
+                    };
+                    if f[0] == "gets" {
+                        outs.push(match p.get_options_as::<OptionValueString>(o) {
+                            None => "none".into(),
+                            Some(l) => format!("[{}]", l.iter().map(sh).collect::<Vec<_>>().join(",")),
+                        });
+                    } else {
+                        outs.push(match p.get_first_option_as::<OptionValueString>(o) {
+                            None => "none".into(),
+                            Some(r) => sh(&r),
+                        });
+                    }
+                }
+                "raw" => {
+                    let num: u16 = f[1].parse().unwrap();
+                    outs.push(match p.get_option(CoapOption::from(num)) {
+                        None => "none".into(),
+                        Some(l) => format!("[{}]", l.iter().map(|v| val_token(v)).collect::<Vec<_>>().join(",")),
+                    });
+                }
+                _ => panic!("bad op"),
+            }
+        }
+        outs
+    });
+    // reference evaluation (element by element, in order)
+    for op in ops {
+        let f: Vec<&str> = op.split(' ').collect();
+        let widthmask = |w: u32, x: u64| if w >= 8 { x } else { x & ((1u64 << (8 * w)) - 1) };
+        match f[0] {
+            "addu" => {
+                let w: u32 = f[1].parse().unwrap();
+                refm.entry(f[2].parse().unwrap()).or_default().push(min_be(widthmask(w, f[3].parse().unwrap())))
+            }
+            "adds" | "addraw" => refm.entry(f[1].parse().unwrap()).or_default().push(parse_val(f[2])),
+            "setu" => {
+                let w: u32 = f[1].parse().unwrap();
+                let xs: Vec<Vec<u8>> = if f[3] == "_" { vec![] } else { f[3].split(',').map(|x| min_be(widthmask(w, x.parse().unwrap()))).collect() };
+                refm.insert(f[2].parse().unwrap(), xs);
+            }
+            "sets" => {
+                let xs: Vec<Vec<u8>> = if f[2] == "_" { vec![] } else { f[2].split(',').map(parse_val).collect() };
+                refm.insert(f[1].parse().unwrap(), xs);
+            }
+            "clr" => {
+                if let Some(l) = refm.get_mut(&f[1].parse().unwrap()) {
+                    l.clear()
+                }
+            }
+            "obs" => {
+                refm.insert(6, vec![min_be(f[1].parse().unwrap())]);
+            }
+            "getobs" => ref_out.push(match refm.get(&6).and_then(|l| l.first()) {
+                None => "none".into(),
+                Some(b) if b.len() > 4 => "err".into(),
+                Some(b) => format!("ok {}", b.iter().fold(0u64, |a, &x| (a << 8) | x as u64)),
+            }),
+            "getu" | "firstu" => {
+                let w: usize = f[1].parse().unwrap();
+                let sh = |b: &Vec<u8>| if b.len() > w { "err".to_string() } else { b.iter().fold(0u64, |a, &x| (a << 8) | x as u64).to_string() };
+                let l = refm.get(&f[2].parse().unwrap());
+                if f[0] == "getu" {
+                    ref_out.push(match l {
+                        None => "none".into(),
+                        Some(l) => format!("[{}]", l.iter().map(sh).collect::<Vec<_>>().join(",")),
+                    });
+                } else {
+                    ref_out.push(match l.and_then(|l| l.first()) {
+                        None => "none".into(),
+                        Some(b) => sh(b),
+                    });
+                }
+            }
+            "gets" | "firsts" => {
+                let sh = |b: &Vec<u8>| if utf8_ok(b) { hex(b) } else { "err".to_string() };
+                let l = refm.get(&f[1].parse().unwrap());
+                if f[0] == "gets" {
+                    ref_out.push(match l {
+                        None => "none".into(),
+                        Some(l) => format!("[{}]", l.iter().map(sh).collect::<Vec<_>>().join(",")),
+                    });
+                } else {
+                    ref_out.push(match l.and_then(|l| l.first()) {
+                        None => "none".into(),
+                        Some(b) => sh(b),
+                    });
+                }
+            }
+            "raw" => ref_out.push(match refm.get(&f[1].parse().unwrap()) {
+                None => "none".into(),
+                Some(l) => format!("[{}]", l.iter().map(|v| val_token(v)).collect::<Vec<_>>().join(",")),
+            }),
+            _ => ref_ok = false,
+        }
+    }
+    match &r {
+        None => {
+            cx.case(&line, "panic");
+            cx.oracle_fail("C06", &line, "typed accessor sequence panicked");
+        }
+        Some(outs) => {
+            let s = outs.join(" / ");
+            cx.case(&line, &s);
+            if ref_ok && s != ref_out.join(" / ") {
+                cx.oracle_fail("C06", &line, &format!("typed accessors return {} but element-by-element reference gives {}", s, ref_out.join(" / ")));
+            }
+            cx.nontrivial(&line);
+        }
+    }
+}
+
+pub fn run(cx: &mut Ctx) {
+    let thorough = cx.tier_thorough;
+    let mut rng = Rng(cx.seed ^ 0x55494e54);
+    // exhaustive 8- and 16-bit values
+    for n in 0..=255u64 {
+        do_enc(cx, 1, n);
+    }
+    for n in 0..=65535u64 {
+        do_enc(cx, 2, n);
+    }
+    cx.exhaustive.push("encode/decode of every 8-bit and 16-bit value".into());
+    // 32/64: powers of two, 256^k neighbours, random
+    for w in [4u32, 8] {
+        let bits = 8 * w;
+        for k in 0..bits {
+            let p = 1u64 << k;
+            for d in [-1i64, 0, 1] {
+                let v = (p as i128 + d as i128) as u64;
+                if w == 8 || v <= u32::MAX as u64 {
+                    do_enc(cx, w, v);
+                }
+            }
+        }
+        do_enc(cx, w, if w == 4 { u32::MAX as u64 } else { u64::MAX });
+        let n = if thorough { 100_000 } else { 20_000 };
+        for _ in 0..n {
+            let v = rng.next() >> rng.below(64);
+            do_enc(cx, w, if w == 4 { v & 0xffff_ffff } else { v });
+        }
+    }
+    // decode: all byte strings of length <= 2 (<= 3 thorough) at every width
+    for w in [1u32, 2, 4, 8] {
+        do_dec(cx, w, &[]);
+        for a in 0..=255u8 {
+            do_dec(cx, w, &[a]);
+            for b in 0..=255u8 {
+                if w != 2 && !thorough && !(a < 2 || a > 253 || b < 2 || b > 253 || a == 0x80) {
+                    continue;
+                }
+                do_dec(cx, w, &[a, b]);
+                if thorough && w == 4 {
+                    for c in 0..=255u8 {
+                        do_dec(cx, w, &[a, b, c]);
+                    }
+                }
+            }
+        }
+        for n in 0..=10usize {
+            for _ in 0..300 {
+                let mut v = rng.bytes(n);
+                if rng.chance(1, 3) && n > 0 {
+                    v[0] = 0;
+                }
+                do_dec(cx, w, &v);
+            }
+            do_dec(cx, w, &vec![0u8; n]);
+            do_dec(cx, w, &vec![0xffu8; n]);
+        }
+    }
+    cx.exhaustive.push("decode of every byte string of length <= 2 as a 16-bit value".into());
+    // strings
+    let ns = if thorough { 50_000 } else { 10_000 };
+    for _ in 0..ns {
+        let s = random_string(&mut rng);
+        do_sdec(cx, s.as_bytes());
+        // ill-formed neighbours: truncation, byte flip, overlong, surrogate
+        let b = s.as_bytes().to_vec();
+        if !b.is_empty() {
+            let k = rng.below(b.len() as u64) as usize;
+            do_sdec(cx, &b[..k]);
+            let mut c = b.clone();
+            c[k] ^= 1 << rng.below(8);
+            do_sdec(cx, &c);
+        }
+    }
+    for bad in [vec![0xc0u8, 0x80], vec![0xc1, 0xbf], vec![0xe0, 0x80, 0x80], vec![0xe0, 0x9f, 0xbf], vec![0xed, 0xa0, 0x80], vec![0xed, 0xbf, 0xbf], vec![0xf0, 0x80, 0x80, 0x80], vec![0xf0, 0x8f, 0xbf, 0xbf], vec![0xf4, 0x90, 0x80, 0x80], vec![0xf5, 0x80, 0x80, 0x80], vec![0xff], vec![0xfe], vec![0x80], vec![0xbf], vec![0xe2, 0x82], vec![0xf0, 0x9f, 0x98], vec![0xf8, 0x88, 0x80, 0x80, 0x80], vec![0xed, 0x9f, 0xbf], vec![0xee, 0x80, 0x80], vec![0xf4, 0x8f, 0xbf, 0xbf], vec![0xc2, 0x80], vec![0xdf, 0xbf], vec![0xe0, 0xa0, 0x80]] {
+        do_sdec(cx, &bad);
+    }
+    for a in 0..=255u8 {
+        do_sdec(cx, &[a]);
+        for b in [0u8, 0x7f, 0x80, 0x8f, 0x90, 0x9f, 0xa0, 0xbf, 0xc0, 0xff] {
+            do_sdec(cx, &[a, b]);
+            do_sdec(cx, &[a, b, 0x80]);
+            do_sdec(cx, &[a, b, 0xbf, 0x80]);
+        }
+    }
+    // typed accessor sequences
+    let nacc = if thorough { 40_000 } else { 8_000 };
+    let nums = [6u16, 11, 12, 14, 60, 258, 1000];
+    for _ in 0..nacc {
+        let n = rng.range(1, 7) as usize;
+        let mut ops: Vec<String> = vec![];
+        for _ in 0..n {
+            let num = *rng.pick(&nums);
+            let w = *rng.pick(&[1u32, 2, 4, 8]);
+            let val = |rng: &mut Rng, w: u32| -> u64 {
+                let v = match rng.below(5) {
+                    0 => 0,
+                    1 => rng.below(256),
+                    2 => rng.below(65536),
+                    3 => rng.next() >> rng.below(64),
+                    _ => *rng.pick(&[255u64, 256, 65535, 65536, 0xffff_ffff, 0x1_0000_0000, u64::MAX]),
+                };
+                if w >= 8 { v } else { v & ((1u64 << (8 * w)) - 1) }
+            };
+            ops.push(match rng.below(12) {
+                0 | 1 => format!("addu {} {} {}", w, num, val(&mut rng, w)),
+                2 => format!("adds {} {}", num, hex(random_string(&mut rng).as_bytes())),
+                3 => {
+                    let k = rng.below(11) as usize;
+                    format!("addraw {} {}", num, hex(&rng.bytes(k)))
+                }
+                4 => {
+                    let k = rng.below(4);
+                    let xs: Vec<String> = (0..k).map(|_| val(&mut rng, w).to_string()).collect();
+                    format!("setu {} {} {}", w, num, if xs.is_empty() { "_".into() } else { xs.join(",") })
+                }
+                5 => {
+                    let k = rng.below(3);
+                    let xs: Vec<String> = (0..k).map(|_| hex(random_string(&mut rng).as_bytes())).collect();
+                    format!("sets {} {}", num, if xs.is_empty() { "_".into() } else { xs.join(",") })
+                }
+                6 => format!("clr {}", num),
+                7 => format!("obs {}", val(&mut rng, 4)),
+                8 => "getobs".to_string(),
+                9 => format!("getu {} {}", w, num),
+                10 => format!("firstu {} {}", w, num),
+                _ => format!("gets {}", num),
+            });
+        }
+        let num = *rng.pick(&nums);
+        ops.push(format!("raw {}", num));
+        ops.push(format!("getu {} {}", *rng.pick(&[1u32, 2, 4, 8]), num));
+        ops.push(format!("firsts {}", num));
+        acc_case(cx, &ops);
+    }
+}
